@@ -427,6 +427,12 @@ pub fn run(run: &Run) -> i32 {
         for p in ["", "1,1,0"] {
             jobs.push((n.clone(), p));
         }
+        // patterns whose last block is kept / whose first block is removed (a subset of the names keeps the run short)
+        if n.contains("Phif64") || n.contains("Aminstari8") && !n.contains("Jones") {
+            for p in ["0,1,1", "1,0,1", "0,1"] {
+                jobs.push((n.clone(), p));
+            }
+        }
     }
     let a = par_items(&jobs, |(n, p), a| check_decoder_handles(n, p, depth, thorough, a));
     graph.1 = a.counters.get("decoder_sequences").cloned().unwrap_or(0);
@@ -438,7 +444,7 @@ pub fn run(run: &Run) -> i32 {
         run,
         acc,
         Coverage {
-            rule: "constructors: 7 alist texts (valid 3x6, staircase 3x5, singular tail, truncated, non-numeric, out-of-range index, empty) x text and file variants x (36 names + 5 non-names) x 9 puncturing strings for the decoder, x 9 puncturing strings for the encoder, plus an unreadable path and non-UTF-8 byte strings in every argument position: null exactly when a Rust-side prerequisite fails; decoder handles: for each of 36 names x {no puncturing, '1,1,0'} on the 3x6 code, EVERY call sequence of length <= 3 over 48 (72 thorough) calls (f64/f32 x 4 (6) LLR buffers x max_iterations {0,1,5} x output_len {k, n}), each call compared with a fresh Rust decoder on the depunctured (f32-widened) LLRs; encoder handles: every input in {0,1,2,255}^k on two codes x puncturing patterns, twice per handle. states/transitions = handle call sequences executed. Non-trivial = call made on a handle that has already been used / rejected constructor / punctured or non-binary encoder input.".into(),
+            rule: "constructors: 7 alist texts (valid 3x6, staircase 3x5, singular tail, truncated, non-numeric, out-of-range index, empty) x text and file variants x (36 names + 5 non-names) x 9 puncturing strings for the decoder, x 9 puncturing strings for the encoder, plus an unreadable path and non-UTF-8 byte strings in every argument position: null exactly when a Rust-side prerequisite fails; decoder handles: for each of 36 names x {no puncturing, '1,1,0'} (plus '0,1,1', '1,0,1', '0,1' for a subset of names) on the 3x6 code, EVERY call sequence of length <= 3 over 48 (72 thorough) calls (f64/f32 x 4 (6) LLR buffers x max_iterations {0,1,5} x output_len {k, n}), each call compared with a fresh Rust decoder on the depunctured (f32-widened) LLRs; encoder handles: every input in {0,1,2,255}^k on two codes x puncturing patterns, twice per handle. states/transitions = handle call sequences executed. Non-trivial = call made on a handle that has already been used / rejected constructor / punctured or non-binary encoder input.".into(),
             exhaustive: true,
             extra: serde_json::Map::new(),
             graph: Some(graph),
